@@ -476,7 +476,7 @@ func (g *c08Gen) family(f int) {
 		body := g.remoteAct(Pick(r, []string{"Like", "Announce"}), J{"object": st.Note1, "to": []string{st.Alice.ID, st.Carol.ID}})
 		g.reqs = append(g.reqs, inboxReq(g.id(), st.Alice, hostA, body), inboxReq(g.id(), st.Carol, hostA, body))
 	case 3: // Likes / Announces of one owned object, or of the same two owned objects listed in different orders
-		obj := Pick(r, []string{st.Note1, st.Note2})
+		obj := Pick(r, []string{st.Note1, st.Note2, st.Note1 + "#part-2"})
 		two := r.Intn(3) == 0
 		for i, n := 0, 2+r.Intn(2); i < n; i++ {
 			var o interface{} = obj
@@ -590,6 +590,9 @@ func genC08(r *Rng, tier string, k int) *RunSpec {
 		}
 		st.W.Servers[0].FedCb, st.W.Servers[0].SocCb = cbs, cbs
 	}
+	// an owned value whose id points into a document
+	st.W.Servers[0].Docs = append(st.W.Servers[0].Docs, DocSpec{st.Note1 + "#part-2",
+		mustJSON(J{"@context": asCtx, "type": "Note", "id": st.Note1 + "#part-2", "attributedTo": st.Alice.ID, "content": "a part"})})
 	g := &c08Gen{st: st, r: r}
 	maxReq := 3
 	if tier == "thorough" {
